@@ -593,9 +593,59 @@ func fixedCase(i int) *input {
 
 const nFixed = 22
 
+// many tiny day directories of one interface: more than goDB.WorkBulkSize = 32 directories mean
+// several workloads, i.e. several partial maps that the aggregation has to merge. Even days hold
+// an IPv6 flow, every third day an IPv4 flow as well, every group recurs on many days.
+const nLong = 8
+
+func longCase(j int) *input {
+	const D0 = int64(1700006400) // 2023-11-15
+	nd := []int{40, 47, 64, 65, 70, 33, 66, 52}[j]
+	pl := []string{"10.0.0.1", "10.0.0.2", "2001:db8::1", "2001:db8::2", "fe80::"}
+	ifc := ifaceIn{Name: "eth0"}
+	for k := 0; k < nd; k++ {
+		d := D0 + int64(k)*86400
+		b := blockIn{Ts: d + 300*int64(1+k%7)}
+		b.V6 = []flowIn{fl(2+k%2, 3-k%2, 80, 6, uint64(k+1), 1, 1, uint64(k%2))}
+		if k%5 == 4 {
+			b.V6 = append(b.V6, fl(4, 2, 53, 17, 7, 7, 1, 1))
+		}
+		// IPv4 flows only late (or never) in the first workload, so the first partial maps are IPv6-only
+		if (j%2 == 0 && k >= 36 && k%3 == 0) || (j%2 == 1 && k%11 == 10) {
+			b.V4 = []flowIn{fl(k%2, 1-k%2, 443, 6, 5, uint64(k), 2, 2)}
+		}
+		ifc.Days = append(ifc.Days, dayIn{Ts: d, Blocks: []blockIn{b}})
+	}
+	in := &input{Pool: pl, Ifaces: []ifaceIn{ifc}, First: D0 - 86400, Last: D0 + int64(nd+1)*86400,
+		Query: []string{"eth0"}, P: 1 + j%8, Kind: "long", Attrs: []string{"sip"}}
+	switch j % 4 {
+	case 0: // only IPv6 flows match
+		in.Cond = leaf("snet", "=", "2001:db8::/32")
+		in.Attrs = []string{"sip", "dip"}
+	case 1: // no condition: both families, IPv4 rare
+		in.Attrs = []string{"dip"}
+	case 2: // both families by a disjunction
+		in.Cond = or(leaf("dport", "=", "80"), leaf("snet", "=", "10.0.0.0/8"))
+		in.Attrs = []string{"sip", "dport"}
+	case 3: // only IPv4 flows match
+		in.Cond = leaf("dnet", "=", "10.0.0.0/24")
+		in.Attrs = []string{"sip", "dip", "proto"}
+	}
+	if j >= 4 {
+		in.Off = []int{-18000, 0, 19800, 0}[j-4]
+	}
+	if j == 6 { // second half only: the first workload contributes nothing
+		in.First = D0 + 30*86400
+	}
+	return in
+}
+
 func gen(r *vhlib.Rand, i int, o vhlib.Opts) any {
 	if i < nFixed {
 		return fixedCase(i)
+	}
+	if i < nFixed+nLong {
+		return longCase(i - nFixed)
 	}
 	p := genPool(r)
 	in := &input{Pool: p.all, Kind: "random", P: 1 + r.Intn(4)}
